@@ -21,6 +21,7 @@ static void sfd_scenario(const std::vector<int>& ops, int devnull, const string&
   string kase = "scoped_fd A,B (both start empty): " + hist + "destroy A; destroy B";
   FdGuard g;
   io::CloseScope cs;
+  C->count("operation-sequences-run:scoped_fd");
   std::unique_ptr<phosg::scoped_fd> obj[2];
   obj[0].reset(new phosg::scoped_fd());
   obj[1].reset(new phosg::scoped_fd(-1));
@@ -57,11 +58,8 @@ static void sfd_scenario(const std::vector<int>& ops, int devnull, const string&
       if (!obj[x]) continue;
       int v = (int)*obj[x];
       bool open = obj[x]->is_open();
-      if (open != (held[x] >= 0) || (held[x] >= 0 && v != held[x])) {
-        C->violation(fmt("scoped_fd:state:%s", opname), fmt("object %c reports fd=%d is_open=%d, model holds %d", 'A' + x, v, (int)open, held[x]), kase);
-        bad = true;
-        return;
-      }
+      // what the object *reports* is only recorded (the statement speaks about close() behaviour, which the log decides)
+      if (open != (held[x] >= 0) || (held[x] >= 0 && v != held[x])) C->count("scoped_fd:reported-state-differs-from-model");
       if (held[x] >= 0 && fcntl(held[x], F_GETFD) < 0) {
         C->violation(fmt("scoped_fd:held-descriptor-closed:%s", opname), fmt("object %c holds fd %d which is not open", 'A' + x, held[x]), kase);
         bad = true;
@@ -179,6 +177,7 @@ static string poll_hist_str(const std::vector<int>& ops, int nfds, int nrm) {
 
 static void poll_compare(phosg::Poll& P, const std::map<int, short>& model, const int* fds, int nfds, const std::function<string()>& kase, bool readd) {
   C->evaluations++;
+  C->count("histories-run:Poll");
   bool e = P.empty();
   std::unordered_map<int, short> res;
   try {
